@@ -451,6 +451,39 @@ func c07OtherBackends(c *vfeng.Ctx) {
 		}
 	}
 	w.Close()
+	// a backend with case-distinct accounts: the verdict that counts is the one for
+	// the NORMALISED name, at the login endpoint and wherever basic-auth is taken
+	{
+		w := vfNewWorld(vfOpts{CertBackends: []string{"password"}, WebUIBackends: []string{"password"}, Users: map[string]string{"alice": "pw-of-lower-alice", "Alice": "pw-of-capital-alice", "bob": "bob-pw"}})
+		for _, typed := range []string{"alice", "Alice", "ALICE"} {
+			for _, pw := range []string{"pw-of-lower-alice", "pw-of-capital-alice"} {
+				want := pw == "pw-of-lower-alice" // the normalised account is "alice"
+				for _, via := range []string{"login-form", "login-basic", "certgen-basic", "profile-basic"} {
+					var r *vfResp
+					switch via {
+					case "login-form":
+						r = w.Do(vfReq{Method: "POST", Path: "/api/v0/login", Form: url.Values{"username": {typed}, "password": {pw}}}.Build())
+					case "login-basic":
+						r = w.Do(vfReq{Method: "POST", Path: "/api/v0/login", HasBasic: true, Basic: [2]string{typed, pw}}.Build())
+					case "certgen-basic":
+						q := vfCertgenReq("alice", "ssh", vfSSHPub(vfKeys.userRSA.Public()), "1h")
+						q.HasBasic, q.Basic = true, [2]string{typed, pw}
+						r = w.Do(q.Build())
+					case "profile-basic":
+						r = w.Do(vfReq{Method: "GET", Path: profilePath, HasBasic: true, Basic: [2]string{typed, pw}}.Build())
+					}
+					got := r.Code == 200
+					c.Eval(1)
+					if got && !want {
+						c.Violate("C07|case-twin-accounts|verdict-for-raw-name|"+via, fmt.Sprintf("%s as %q with the password of the account spelled differently was accepted (status %d, admitted %q): the backend was not asked about the normalised user", via, typed, r.Code, r.LogUser), map[string]interface{}{"backend": "htpasswd-case-twins", "typed": typed, "via": via})
+					} else {
+						c.Class(fmt.Sprintf("case-twins|%s|accepted=%v", via, got), typed)
+					}
+				}
+			}
+		}
+		w.Close()
+	}
 	// external command: accepts iff the password (on stdin) is "cmd-<user>"
 	dir, _ := os.MkdirTemp(vfScratchRoot, "kmvcmd")
 	defer os.RemoveAll(dir)
